@@ -125,7 +125,7 @@ def run(ctx):
     ctx.sample({"origin": "ChartRoute.tla behaviour", "behaviour": beh[len(beh) // 2], "record": recs[len(beh) // 2]})
     # TRACE: seeded subsets of all 40 headers, seeded selections (subsets, supersets, absent pairs), poison anywhere
     for k in range(ctx.pick(300, 6000)):
-        present = r.sample(ALL_HEADERS, r.randrange(0, 10))
+        present = r.sample(ALL_HEADERS, r.randrange(0, 10) if k % 8 else r.randrange(10, 41))
         poison = {h for h in present if r.random() < 0.25}
         mode = r.random()
         if mode < 0.15:
